@@ -306,6 +306,7 @@ impl VirtualSign<'_> {
 
     /// Handles `DataChunksSent` messages.
     fn data_chunks_sent<'a>(&mut self, chunks: ChunkCount) -> Option<Message<'a>> {
+        let receiving_pixels = self.state == State::PixelsInProgress;
         if ChunkCount(self.data_chunks) == chunks {
             match self.state {
                 State::ConfigInProgress => self.state = State::ConfigReceived,
@@ -319,7 +320,9 @@ impl VirtualSign<'_> {
                 _ => {}
             }
         }
-        self.flush_pixels();
+        if receiving_pixels {
+            self.flush_pixels();
+        }
         self.data_chunks = 0;
         None
     }
